@@ -24,7 +24,7 @@ RULE_TEXT = ("Server stack (SQLite or memory store). Program: one step that eith
 COMPONENTS = {"real": ["server runtime stack, IdleReleaseDecorator release/reload, PersistenceDecorator restart, engine scheduled wake-ups"],
               "stub": ["llama_index_instrumentation"], "sim": ["loop, clocks, SQLite seam (crash), incarnations"]}
 ASSUMPTIONS = ["'really elapsed' is virtual time; quiescence gap (500 s) is far above every timer in the program"]
-EXPECTED_PROBES = ["chained-timers-idle_timeout-between", "released-with-timer-pending", "restarted-with-timer-pending", "timer-fired-in-memory"]
+EXPECTED_PROBES = ["two-waiter-timers-and-workflow-timeout-pending", "one-wait-answered-while-another-timer-pending", "chained-timers-idle_timeout-between", "released-with-timer-pending", "restarted-with-timer-pending", "timer-fired-in-memory"]
 LEVEL_TEXT = "Seeded exploration of timer/idle_timeout relations and restart instants; liveness judged only at simulator quiescence."
 LEVEL_NOTE = "Trusted: simulator loop/clocks, crash fence."
 
@@ -156,5 +156,77 @@ def check(world, spec, outcome) -> None:
     world._nt = via != "none"
 
 
+# ---------------------------------------------------------------------------------------------------------------------------
+# timer-constellation arm: several timers of one run pending side by side (the workflow timeout, two parallel waits with their own
+# timeouts, one of which may be answered before it expires); idle_timeout far above all of them, no restart: nothing is released or
+# killed, so every timer simply has to fire.
+
+
+def gen_multi(tape, cfg):
+    ta = tape.choice([2, 4, 6, 9], "m.ta")
+    tb = tape.choice([2, 4, 6, 9], "m.tb")
+    gap = tape.choice([0, 0, 1, 3], "m.gap")
+    steps = [
+        {"name": "s0", "accepts": ["Start0"], "workers": 1, "sync": False, "retry": None, "role": "step",
+         "scripts": {"Start0": [("psend", "E0", 1), ("psend", "E1", 1), ("ret", None)]}, "returns": ["E0", "E1"], "stop": False},
+        {"name": "wa", "accepts": ["E0"], "workers": 1, "sync": False, "retry": None, "role": "step",
+         "scripts": {"E0": [("wait", "Resp0", True, ta, "wa", False, "continue"), ("ret", None)]}, "returns": [], "stop": False},
+        {"name": "wb", "accepts": ["E1"], "workers": 1, "sync": False, "retry": None, "role": "step",
+         "scripts": {"E1": ([("sleep", gap)] if gap else []) + [("wait", "Resp1", True, tb, "wb", False, "continue"), ("ret", "stop")]}, "returns": [], "stop": True},
+    ]
+    return {"steps": steps, "types": ["E0", "E1"], "timeout": tape.choice([40, 40, 25], "m.tt"), "driver": "result", "disable_validation": False,
+            "ta": ta, "tb": tb, "gap": gap, "answer_at": tape.choice([None, 1, 1, 3, 5], "m.answer")}
+
+
+async def scenario_multi(world, spec):
+    world.cfg["idle_timeout"] = 400.0
+    inc = world.new_incarnation()
+    wf = inc.add_workflow("wf", spec)
+    await inc.start()
+    await inc.call(inc.service.start_workflow(wf, "h1", start_event=EV.Start0(uid=world.uid())))
+    if spec["answer_at"] is not None:
+        await asyncio.sleep(spec["answer_at"])
+        call = next((c for c in world.wait_calls if c["step"] == "wa"), None)
+        if call is not None and _read_status(world) and _read_status(world)[0] == "running":
+            world.trace.log("answer", key=call["key"])
+            try:
+                await inc.call(inc.service.send_event("h1", EV.Resp0(uid=world.uid(), key=call["key"])))
+            except BaseException as e:  # noqa: BLE001
+                world.trace.log("answer-error", exc=type(e).__name__)
+    await world.loop.quiesce()
+    world.trace.log("quiescent", phase="end")
+    return {"final": _read_status(world)}
+
+
+def check_multi(world, spec, outcome) -> None:
+    recs = world.trace.recs
+    res = {f["step"]: t for _, t, k, f in recs if k == "wait-result"}
+    tos = {f["step"]: t for _, t, k, f in recs if k == "wait-timeout"}
+    susp = {}
+    for _, t, k, f in recs:
+        if k == "exit" and f["exit"] == "suspended":
+            susp.setdefault(f["step"], t)
+    world._nt = "wa" in susp and "wb" in susp
+    if world._nt:
+        world.probe("two-waiter-timers-and-workflow-timeout-pending")
+    if "wa" in res:
+        world.probe("one-wait-answered-while-another-timer-pending")
+    cause = {"via": "in-memory", "timer": "wait", "premature_release": False, "arm": "constellation"}
+    final = outcome.get("final") if outcome else None
+    t_end = next((t for _, t, k, f in recs if k == "publish" and f["ev"] in ("StopEvent", "WorkflowFailedEvent", "WorkflowTimedOutEvent", "WorkflowCancelledEvent")), world.clock.t)
+    for st, T in (("wa", spec["ta"]), ("wb", spec["tb"])):
+        # owed only if the wait was still pending, and the run still alive, when the timeout was due
+        if st in susp and st not in res and st not in tos and susp[st] + T < min(t_end, world.clock.t) - 1e-9:
+            world.violate("C14.timeout-lost", f"step {st} suspended at t={susp[st]} with timeout={T} (other wait: answered={'wa' in res}, workflow timeout {spec['timeout']}); "
+                          f"no TimeoutError by t={world.clock.t}; handler {final}", **cause)
+    if final is None or final[0] == "running":
+        world.violate("C14.running-forever", f"handler is {final} at quiescence (t={world.clock.t}); constellation ta={spec['ta']} tb={spec['tb']} gap={spec['gap']}", **cause)
+    elif final[0] != "completed" and "wb" in susp and susp["wb"] + spec["tb"] < spec["timeout"]:
+        world.violate("C14.timeout-lost", f"the waits were due at {susp.get('wa', 0) + spec['ta']} / {susp['wb'] + spec['tb']}, well before the workflow timeout {spec['timeout']}, "
+                      f"yet the run ended {final}", **dict(cause, how="run-did-not-complete"))
+
+
 def run(tape):
+    if tape.draw(4, "c14.arm") == 0:
+        return engine_common.simulate(tape, CFG, check_multi, gen=gen_multi, scenario=scenario_multi, nontrivial=lambda w, s, o: w._nt, world_cls=ServerWorld)
     return engine_common.simulate(tape, CFG, check, gen=gen, scenario=scenario, nontrivial=lambda w, s, o: w._nt, world_cls=ServerWorld)
